@@ -278,6 +278,16 @@ pub fn run_decode(a: &Args, out: &mut Out) {
     }
     small_x_cases(out);
     limb_perturbations(out, &mut rng);
+    // compressed x taken from the conversion-quotient family (the decoder's conversion of x into Montgomery form has zero quotient digits)
+    {
+        let poolq = load_pool(&a.pool, "Fq");
+        for (i, v) in poolq.cvt.iter().enumerate() {
+            if !thorough && (i as u64 + a.seed) % 4 != 0 { continue; }
+            let mut c = vec![2u8 + (i % 2) as u8];
+            c.extend_from_slice(v);
+            decode_ev::<G1>(out, "cmp", &c);
+        }
+    }
     let rounds = if thorough { 6 } else { 2 };
     for _ in 0..rounds {
         corruptions::<G1>(&mut rng, &pool, out, thorough);
